@@ -653,6 +653,14 @@ func (w *World) VerifyFunc(fn *ssa.Function) *VC {
 			vars["self"] = sv
 		}
 	}
+	// a deferred recover helper verified on its own: `recovered` names what recover() returns
+	if usesRecover(fn) {
+		f.recoveredVal = vc.Fresh("recovered", SIface)
+		for _, fact := range w.staticTypeFacts(types.NewInterfaceType(nil, nil), f.recoveredVal) {
+			vc.Assume(fact)
+		}
+		vars["recovered"] = SVal{T: f.recoveredVal, Go: types.NewInterfaceType(nil, nil)}
+	}
 	// a closure's contract may name its captured variables (entry values)
 	for _, fv := range fn.FreeVars {
 		if _, dup := vars[fv.Name()]; dup {
